@@ -23,7 +23,9 @@ Definition cerr_eqb (a b : cerr) : bool :=
   | _, _ => false
   end.
 
-Record ccase := MkCase { c_m : Q; c_s : unit3; c_e : unit3; c_x : cexp }.
+(* c_ref: an absolute reference scale added to |model value| in the tolerance (0 for pure scalings;
+   the size of the cancelling terms for conversions with offsets) *)
+Record ccase := MkCase { c_m : Q; c_s : unit3; c_e : unit3; c_x : cexp; c_ref : Q }.
 
 Section Check.
   Variable bd : env.
@@ -35,7 +37,7 @@ Section Check.
 
   Definition conv_ok (c : ccase) : bool :=
     match convert bd tbl ord offs fuel (c_m c) (c_s c) (c_e c), c_x c with
-    | COk v, XVal w => Qclose tol w v
+    | COk v, XVal w => Qle_bool (Qabs (w - v)) (tol * (Qabs v + c_ref c))
     | CErr e, XErr e' => cerr_eqb e e'
     | _, _ => false
     end.
